@@ -108,6 +108,7 @@ class Ocp(Stage):
             self._placeholders_transcribe_recurse(1,self._transcribed_placeholders)
             self._transcribe_recurse(phase=1,**kwargs)
             self._original._set_transcribed(True)
+            self._var_is_transcribed = True
 
             self._transcribe_recurse(phase=2,placeholders=self.placeholders_transcribed,**kwargs)
     
@@ -118,6 +119,7 @@ class Ocp(Stage):
             self._placeholders_untranscribe_recurse(1)
             self._untranscribe_recurse(phase=1)
             self._original._set_transcribed(False)
+            self._var_is_transcribed = False
 
             self._untranscribe_recurse(phase=2)
 
